@@ -90,7 +90,7 @@ pub fn generate(ctx: &mut Ctx) {
             }
         }
     }
-    let n = ctx.random_budget(480, 120_000, 2_500_000);
+    let n = ctx.random_budget(160, 120_000, 2_500_000);
     for i in 0..n {
         let mut rng = ctx.rng("hist", i);
         let mut o = gen::Opts::new(rng.chance(1, 2));
@@ -100,7 +100,8 @@ pub fn generate(ctx: &mut Ctx) {
         let route = rng.below(4) as u64;
         let init = if kind == 2 { gen::path(&mut rng, o) } else if kind == 1 { gen::full(&mut rng, o) } else { gen::reference(&mut rng, o) };
         let mut ops: Vec<String> = Vec::new();
-        for _ in 0..rng.range(1, 24) {
+        let maxops = if ctx.tiny() { 8 } else { 24 };
+        for _ in 0..rng.range(1, maxops) {
             ops.push(match rng.below(20) {
                 0 => format!("scheme:{}", gen::scheme(&mut rng)),
                 1 => format!("auth:{}", gen::authority(&mut rng, o)),
